@@ -18,6 +18,27 @@ FIRST = {  # why the first run of the property's quick check missed the change (
     "C09-r2-2": "no function ending in a loop with a constant-true condition left by break",
     "C13-r2-1": "caught at first run", "C13-r2-2": "caught at first run",
     "C14-r2-1": "caught at first run", "C14-r2-2": "caught at first run",
+    # round 3 (the twelve properties not seeded in round 2)
+    "C03-r3-1": "no fixed-shape list type `[T1, T2]` in any template (now: initializer / argument / result with one element too many, too few, wrong type)",
+    "C03-r3-2": "a re-assignment inside a block always had its declaration inside the same block, except under `if` (now: declared outside while / from / else / else-if / two levels)",
+    "C06-r3-1": "caught at first run", "C06-r3-2": "caught at first run",
+    "C08-r3-1": "caught at first run",
+    "C08-r3-2": "every method that READ a field returned the field itself: no expression over a field (now: -self.f, self.f + self.f, self.f > 0, !self.f, self.f + \"\" as methods, in the Coq model as MRo with theorem readonly_method_changes_nothing)",
+    "C10-r3-1": "caught at first run", "C10-r3-2": "caught at first run",
+    "C11-r3-1": "caught at first run", "C11-r3-2": "caught at first run",
+    "C12-r3-1": "optionals were variables, parameters and results only: no class field, list element, map value or method result as operand of get / or / == nil / ?= (now: container_cases)",
+    "C12-r3-2": "caught at first run",
+    "C15-r3-1": "operands were logging calls, literals and variables: no element / field / map-value operand whose slot a LATER sibling writes",
+    "C15-r3-2": "map literals had keys in ascending order only; besides, two kinds of the extended stream had been silently rejected by the compiler since an earlier fix (a rejected case is now reported)",
+    "C16-r3-1": "caught at first run",
+    "C16-r3-2": "the boundary inputs were deep, never wide: no long flat operator chain / argument list / literal (now: breadth_suspects, 40 and 200 items)",
+    "C17-r3-1": "caught at first run", "C17-r3-2": "caught at first run",
+    "C18-r3-1": "`/` was not in the alphabet of generated arguments (now: `/`, comment-like tokens of other formats, 20% of strings over all printable ASCII)",
+    "C18-r3-2": "caught at first run",
+    "C19-r3-1": "the failing foreign call was always an instruction of the module function (now: through `call`, two nested calls, and as the callback of the built-in map)",
+    "C19-r3-2": "the probe's error message was always one non-empty line (now: failmsg raises its argument verbatim: empty, several lines, long, non-ASCII)",
+    "C20-r3-1": "caught at first run",
+    "C20-r3-2": "caught at first run, but only as a model/implementation difference on `..mmm` (a name the property's list leaves open); hidden names with a real extension (`.cache.mmm`) now give the concrete failing tree",
 }
 
 
